@@ -605,6 +605,53 @@ def run_api(chk, tag, world, invariants=(), timeout=3000):
     return summ, bad
 
 
+def run_random(chk, tag, seed, ndocs, per, timeout=3000):
+    """code -> spec: the harness builds random documents by reflection and random expressions over their paths, evaluates
+    them with the real code and records the observations; TLC (spec/Validate.tla) steps through the recording and accepts
+    an observation when the reference semantics allows it.  Returns (recording, rejected observations)."""
+    wd = sub(tag)
+    out = os.path.join(wd, "rand.json")
+    harness(["randeval", "-seed", str(seed), "-docs", str(ndocs), "-per", str(per), "-out", out])
+    rec = json.load(open(out))
+    rec["never"] = rec.get("never") or []
+    cases = rec["cases"] or []
+    if not cases:
+        raise Infra("%s: the random driver recorded nothing" % tag)
+    exprs = [c["e"] for c in cases]
+    strings, jn = set(), set()
+    for d in rec["docs"]:
+        walk_strings(d["av"], strings)
+    for c in rec["cfgs"]:
+        if c["unknown"]["k"] != "none":
+            walk_strings(c["unknown"], strings)
+    lits = literals_of(exprs)
+    parts = path_parts(exprs, [])
+    ft = floattab.table(lits | parts | {"0"} | {s for s in strings if len(s) < 40})
+    pats = {a["val"] for a in atoms_flat(exprs) if a["op"] in ("matches", "notmatches")}
+    world = {"docs": rec["docs"], "cfgs": rec["cfgs"], "cases": [{"e": c["e"], "d": c["d"], "c": c["c"], "o": c["o"]} for c in cases],
+             "floattab": ft, "regextab": regextab(pats, strings)}
+    cfg = 'SPECIFICATION Spec\nCONSTANT WorldFile = "world.json"\nPOSTCONDITION Consumed\nCHECK_DEADLOCK FALSE\n'
+    r = run_tlc("Validate", cfg, wd, files={"world.json": world}, workers=1, timeout=timeout, want_cases=False)
+    chk.add_tlc(r)
+    if r.violation or r.distinct != len(cases) + 1:
+        raise Infra("%s: the recording was not consumed (%s, %d of %d)" % (tag, r.violation, r.distinct - 1, len(cases)))
+    bad = []
+    for l in r.prints:
+        if l.startswith('"BAD '):
+            b = json.loads(json.loads(l)[4:])
+            c = cases[b["n"] - 1]
+            bad.append({"expr": c["text"], "doc": rec["docs"][c["d"] - 1]["name"], "cfg": rec["cfgs"][c["c"] - 1]["name"], "spec": b["spec"], "impl": b["impl"],
+                        "document": json.dumps(rec["docs"][c["d"] - 1]["av"])[:1500]})
+    by = {}
+    for c in cases:
+        by[c["o"]] = by.get(c["o"], 0) + 1
+    log("%s: %d random documents, %d observations %s validated by TLC, %d rejected, %d panics / (true, err)" % (tag, len(rec["docs"]), len(cases), by, len(bad), len(rec["never"])))
+    chk.cov["traces_validated_against_impl"] += len(cases)
+    chk.cov["evaluations"] += len(cases)
+    rec["by"] = by
+    return rec, bad
+
+
 # ---------------------------------------------------------------------------------------
 # verdicts and evidence
 
